@@ -85,8 +85,16 @@ PROPS = {
     "C14": dict(functions=[("fastavro/_schema_common.py", r"rabin_fingerprint", "default"), ("fastavro/_schema_py.py", r"fingerprint", "default")],
                 lemmas=[], bounded="C14", level="proof"),
     "C15": dict(functions=[], lemmas=[], bounded="C15", level="exploration"),
-    "C16": dict(functions=[], lemmas=[], bounded="C16", level="exploration"),
-    "C19": dict(functions=[], lemmas=[], bounded="C19", level="exploration"),
+    # C16: date, time-millis, time-micros: the stored integer is the specification's (days from 1970-01-01, units after
+    # midnight), the readers invert it on the whole stored domain (calendar objects through observer functions and
+    # assumed constructor contracts); timestamps, uuid and decimals are bounded
+    "C16": dict(functions=[("fastavro/_logical_writers_py.py", r"prepare_(time_millis|time_micros|date)", "default"),
+                           ("fastavro/_logical_readers_py.py", r"read_(time_millis|time_micros|date)", "default")],
+                lemmas=["time_millis_roundtrip", "time_micros_roundtrip", "time_millis_onto", "time_micros_onto"],
+                bounded="C16", level="exploration"),
+    # C19: _inject_schema returns INJ (spec/inject.py): the loaded type inlined at its FIRST use, depth first, left to
+    # right, namespace-relative references resolved; the loader around it (files, retry loop) is bounded
+    "C19": dict(functions=[("fastavro/_schema_py.py", r"_inject_schema", "default")], lemmas=[], bounded="C19", level="exploration"),
     # C20: gen_data for every schema without logical types; counts / logical types / writer acceptance bounded
     "C20": dict(functions=[("fastavro/utils.py", r"(_randbytes|_gen_utf8|gen_data)", "default")],
                 lemmas=["any_valid_at", "genok_at", "all_str_at", "wf_branch_at", "allvalid_r_append", "allvalid_bridge",
